@@ -39,6 +39,35 @@ func randKeys(r *rand.Rand, n int) []uint64 {
 	return out
 }
 
+// fragmentingPair: two run-shaped sets (about a thousand runs each, cheap as run chunks) whose intersection falls apart
+// into about two thousand two-value pieces with a cardinality of exactly 4095, 4096 or 4097, and whose difference /
+// symmetric difference are fragmented likewise: results of run x run kernels right at the array/bitmap threshold with
+// more runs than a run chunk can afford.
+func fragmentingPair(r *rand.Rand, key uint64) (iset, iset) {
+	base := key<<16 + uint64(r.Intn(1000))
+	n := uint64(1024)
+	var as, bs []span
+	bs = append(bs, span{base, base + 1})
+	for i := uint64(0); i < n; i++ {
+		as = append(as, span{base + 12*i, base + 12*i + 5})
+		bs = append(bs, span{base + 12*i + 4, base + 12*i + 13})
+	}
+	// |A and B| = 2 (first piece) + 2 per bridge end = 4n exactly (the last B run reaches past the last A run)
+	a, b := normalize(as), normalize(bs)
+	switch r.Intn(3) {
+	case 0: // 4095
+		b = b.minus(iset{span{base, base}})
+	case 1: // 4096
+	default: // 4097
+		a = a.union(iset{span{base + 12*n + 20, base + 12*n + 20}})
+		b = b.union(iset{span{base + 12*n + 20, base + 12*n + 25}})
+	}
+	if r.Intn(2) == 0 {
+		return b, a
+	}
+	return a, b
+}
+
 // relativeShape returns a set built RELATIVE to a: a background that avoids a (nothing / sparse / dense / comb / the
 // whole complement) plus a sliver of a placed at an edge of one of a's runs (first / last value, first / last 64-bit
 // word, a few values at either end) -- or a itself minus such a sliver. Operations whose answer hinges on a tiny
